@@ -393,6 +393,217 @@ func genLex(r *rand.Rand, tier string, st *Stats) []Case {
 		cases = append(cases, tokCase(fmt.Sprintf("nul%d", i), string(b), "nul"))
 	}
 	st.Counts["nul"] = nn
+	cases = append(cases, genItemCases(r, tier, st)...)
+	return cases
+}
+
+// ---- item-level stream: the lexical grammar of lean/Vore/Spec/LexItems.lean as a generator --------
+// A random well-separated item list (separators only where Item.sep demands one, plus random gaps);
+// the case carries the tokens the specification assigns (kind + lexeme), so the real lexer is compared
+// with the *specification* of theorem C15_lex_items, not only with the model.
+
+type lexItem struct {
+	render, kind, lexeme, class string
+}
+
+var keywordWords = []string{"find", "replace", "with", "set", "to", "pattern", "matches", "transform", "function", "all",
+	"skip", "take", "top", "last", "any", "whitespace", "digit", "upper", "lower", "letter", "whole", "line", "file", "word",
+	"start", "end", "begin", "caseless", "not", "at", "least", "most", "between", "and", "exactly", "maybe", "fewest", "named",
+	"in", "or", "if", "then", "else", "debug", "return", "head", "tail", "loop", "break", "continue", "true", "false"}
+
+func docKeywordKind(w string) string {
+	l := strings.ToLower(w)
+	if l == "function" {
+		return "TRANSFORM"
+	}
+	for _, k := range keywordWords {
+		if k == l {
+			return strings.ToUpper(l)
+		}
+	}
+	return "IDENTIFIER"
+}
+
+func randCase(r *rand.Rand, w string) string {
+	b := []byte(w)
+	for i := range b {
+		if r.Intn(3) == 0 && b[i] >= 'a' && b[i] <= 'z' {
+			b[i] -= 32
+		}
+	}
+	return string(b)
+}
+
+func genItem(r *rand.Rand, st *Stats) lexItem {
+	switch r.Intn(12) {
+	case 0, 1:
+		w := randCase(r, keywordWords[r.Intn(len(keywordWords))])
+		return lexItem{w, docKeywordKind(w), w, "word"}
+	case 2:
+		n := 1 + r.Intn(5)
+		b := make([]byte, n)
+		b[0] = pick(r, "abcxyzABCXYZ")
+		for i := 1; i < n; i++ {
+			b[i] = pick(r, "abcxyzABCXYZ0189")
+		}
+		return lexItem{string(b), docKeywordKind(string(b)), string(b), "word"}
+	case 3:
+		n := 1 + r.Intn(4)
+		b := make([]byte, n)
+		for i := range b {
+			b[i] = byte('0' + r.Intn(10))
+		}
+		return lexItem{string(b), "NUMBER", string(b), "number"}
+	case 4, 5:
+		q := []byte{'\'', '"'}[r.Intn(2)]
+		var body strings.Builder
+		val := []byte{}
+		for j := r.Intn(5); j > 0; j-- {
+			v := byte(0x20 + r.Intn(0x5f))
+			if r.Intn(5) == 0 {
+				v = []byte{'\n', '\t', '\'', '"', '\\', 'x', '-', 1, 0x7f}[r.Intn(9)]
+			}
+			sp := spellingsOf(v, q)
+			keys := []string{}
+			for _, k := range spellingKinds {
+				if _, ok := sp[k]; ok {
+					keys = append(keys, k)
+				}
+			}
+			body.WriteString(sp[keys[r.Intn(len(keys))]])
+			val = append(val, v)
+		}
+		return lexItem{string([]byte{q}) + body.String() + string([]byte{q}), "STRING", string(val), "str"}
+	case 6:
+		n := r.Intn(5)
+		b := make([]byte, n)
+		for i := range b {
+			b[i] = pick(r, "ab[]+*\\. -'")
+		}
+		return lexItem{"@/" + string(b) + "/", "REGEXP", string(b), "regexp"}
+	case 7:
+		i := r.Intn(9)
+		c := "(){},+*/%"[i : i+1]
+		k := []string{"OPENPAREN", "CLOSEPAREN", "OPENCURLY", "CLOSECURLY", "COMMA", "PLUS", "MULT", "DIV", "MOD"}[i]
+		return lexItem{c, k, c, "punct"}
+	case 8:
+		i := r.Intn(5)
+		return lexItem{[]string{"==", "!=", ":=", "<=", ">="}[i], []string{"DEQUAL", "NEQUAL", "COLONEQ", "LESSEQ", "GREATEREQ"}[i],
+			[]string{"==", "!=", ":=", "<=", ">="}[i], "op2"}
+	case 9:
+		i := r.Intn(4)
+		return lexItem{[]string{"=", "<", ">", "-"}[i], []string{"EQUAL", "LESS", "GREATER", "MINUS"}[i], []string{"=", "<", ">", "-"}[i], "op1"}
+	case 10:
+		return genGapItem(r)
+	default:
+		return genGapItem(r)
+	}
+}
+
+func pick(r *rand.Rand, s string) byte { return s[r.Intn(len(s))] }
+
+func genGapItem(r *rand.Rand) lexItem {
+	switch r.Intn(3) {
+	case 0:
+		n := 1 + r.Intn(3)
+		b := make([]byte, n)
+		for i := range b {
+			b[i] = pick(r, " \t\n\r\v\f")
+		}
+		return lexItem{string(b), "WS", string(b), "blank"}
+	case 1:
+		n := r.Intn(5)
+		b := make([]byte, n)
+		for i := range b {
+			b[i] = pick(r, "ab -()'x")
+		}
+		if n > 0 && b[0] == '(' {
+			b[0] = 'c'
+		}
+		return lexItem{"--" + string(b), "COMMENT", "--" + string(b), "lineComment"}
+	default:
+		n := r.Intn(6)
+		b := make([]byte, n)
+		for i := range b {
+			b[i] = pick(r, "ab -()\n")
+		}
+		body := string(b)
+		for strings.Contains(body, ")--") {
+			body = strings.Replace(body, ")--", ")- ", 1)
+		}
+		return lexItem{"--(" + body + ")--", "COMMENT", "--(" + body + ")--", "blockComment"}
+	}
+}
+
+func isAlnumByte(c byte) bool {
+	return (c >= '0' && c <= '9') || (c >= 'a' && c <= 'z') || (c >= 'A' && c <= 'Z')
+}
+
+func isSpaceByte(c byte) bool { return (c >= 9 && c <= 13) || c == ' ' }
+
+// Item.sep of Vore/Spec/LexItems.lean: may `it` be followed directly by a text starting with c?
+func sepOK(it lexItem, c byte) bool {
+	switch it.class {
+	case "word":
+		return !isAlnumByte(c)
+	case "number":
+		return !(c >= '0' && c <= '9')
+	case "blank":
+		return !isSpaceByte(c)
+	case "op1":
+		if it.render == "-" {
+			return c != '-'
+		}
+		return c != '='
+	case "lineComment":
+		return c == '\n'
+	}
+	return true
+}
+
+func genItemCases(r *rand.Rand, tier string, st *Stats) []Case {
+	cases := []Case{}
+	n := sizes(tier, 2500, 200000)
+	for i := 0; i < n; i++ {
+		k := 1 + r.Intn(8)
+		items := []lexItem{}
+		for j := 0; j < k; j++ {
+			it := genItem(r, st)
+			if len(items) > 0 {
+				prev := items[len(items)-1]
+				if !sepOK(prev, it.render[0]) {
+					// a separator is needed here: a newline after a line comment, a blank otherwise
+					// (two blank runs cannot be adjacent: drop the new one)
+					if prev.class == "blank" {
+						continue
+					}
+					sep := " "
+					if prev.class == "lineComment" {
+						sep = "\n"
+					}
+					if it.class == "blank" {
+						it = lexItem{sep + it.render, "WS", sep + it.render, "blank"}
+					} else {
+						items = append(items, lexItem{sep, "WS", sep, "blank"})
+					}
+					st.Counts["items-separator-needed"]++
+				} else {
+					st.Counts["items-touching"]++
+				}
+			}
+			items = append(items, it)
+		}
+		var src strings.Builder
+		exp := []string{}
+		for _, it := range items {
+			src.WriteString(it.render)
+			exp = append(exp, it.kind+":"+hx(it.lexeme))
+			st.Counts["item-"+it.class]++
+		}
+		exp = append(exp, "EOF:x")
+		cases = append(cases, Case{ID: fmt.Sprintf("items%d", i), Op: "tokens",
+			Fields: []string{hx(src.String()), "items", strings.Join(exp, " ")}, Meta: map[string]string{}})
+	}
 	return cases
 }
 
